@@ -114,7 +114,10 @@ def summary(ck, ctx, rule="summary"):
 
     z_edges, nz_edges = C.zero_test_edges(ctx, b, is_count)
     done = False
-    for sbb in sorted({x for x, _ in z_edges}):
+    zsw = sorted({x for x, _ in z_edges})
+    # only the outermost test decides between the two summaries (a nested `n == 0`-like test, e.g. for a plural, decides wording only)
+    zsw = [x for x in zsw if not any(y != x and cfg.dominates(y, x) for y in zsw)]
+    for sbb in zsw:
         st = b.blocks[sbb]["term"]
         if True:
             zero_t = [t for (x, lab) in z_edges if x == sbb for t in cfg.edge_targets(x, lab)]
@@ -189,7 +192,7 @@ def update_each_iteration(ck, ctx):
     for fn, meth in (("progress_fancy::FancyState::task_started", "push_back"), ("progress_fancy::FancyState::task_finished", "remove")):
         fb = ck.need("fn " + fn, F.body(fn))
         fcfg = ctx.cfg(fb)
-        sites = [(bb, t) for bb, t in fb.calls() if callee_of(t).endswith("VecDeque::" + meth)]
+        sites = [(bb, t) for bb, t in fb.calls() if callee_of(t).endswith(("VecDeque::push_back", "VecDeque::push_front") if meth == "push_back" else "VecDeque::" + meth)]
         ok = len(sites) == 1 and all(fcfg.dominates(sites[0][0], r) for r in fcfg.returns())
         ck.ob("running", "%s|%s-once" % (fn, meth), ok, "%s performs exactly one tasks.%s on every path" % (fn, meth), span=fb.loc, fn=fn)
     ub = ck.need("fn progress_fancy::FancyState::update", F.body("progress_fancy::FancyState::update"))
